@@ -31,7 +31,9 @@
                      for PointwiseNorm, |z| > 0 for ComplexModulus.  (Norm/Dist singularities are covered by
                      [deriv_ok]: the code raises there.) *)
 From Coq Require Import Reals List Bool ZArith.
-From Verif Require Import Base.Num Base.Vec C06.Syntax Gen.UfuncDeriv C06.Model C06.Calc C06.Lin C06.LinMap C06.Leaves C06.Proofs C06.FModel C06.FProofs.
+From Verif Require Import Base.Num Base.Vec C06.Syntax Gen.UfuncDeriv C06.Model C06.Calc C06.Lin C06.LinMap C06.Leaves C06.Proofs C06.FModel C06.FProofs Gen.Derivatives C06.Interp C06.Tie Gen.Gradients C06.FInterp C06.FTie Base.Transfer C06.Corr C06.Transfer C06.Frechet C06.FrechetTrees C06.FFrechet.
+From Coq Require Import QArith Qreals.
+Local Open Scope R_scope.
 Import ListNotations.
 Local Open Scope R_scope.
 
@@ -156,6 +158,71 @@ Theorem frechet_derivative_unique :
 Proof. exact hdiff_unique. Qed.
 Print Assumptions frechet_derivative_unique.
 
+(* ---- The LITERAL Frechet statement: little-o in the norm (C06/Frechet.v, FrechetTrees.v) ----
+   [supn h] = max_i |h_i| ;  [norm2 h] = sqrt (sum_i h_i^2) ;
+   [fdiff n m F x L] : F : R^n -> R^m, x in R^n, L maps R^n to R^m and
+       for every eps > 0 there is delta > 0 with
+       | F(x+h)_i - F(x)_i - (L h)_i | <= eps * supn h   for all i < m, supn h < delta.
+   For every tree, at every regular point where derivative(x) returns, the returned
+   object evaluates to THE Frechet derivative:  || F(x+h) - F(x) - D h || = o(||h||).
+   Proof: structural induction with the Frechet calculus (chain rule, products,
+   concatenation, entry-wise C^1 maps, linear maps are norm-bounded) gives SOME bounded
+   linear Frechet derivative; it agrees with the Hadamard derivative of T1.
+   Added premise on user-defined leaves: they are Frechet differentiable. *)
+Theorem derivative_is_frechet_in_sup_norm :
+  forall (af : nat -> list R -> list R) (ad : nat -> list R -> list R -> list R) (adm arn : nat -> space),
+  (forall k x, length x = sdim (adm k) ->
+     hdiff (sdim (adm k)) (sdim (arn k)) (af k) x (ad k x) /\
+     blin (sdim (adm k)) (sdim (arn k)) (ad k x)) ->
+  (forall k x, length x = sdim (adm k) ->
+     exists L, fdiff (sdim (adm k)) (sdim (arn k)) (af k) x L /\ blin (sdim (adm k)) (sdim (arn k)) L) ->
+  forall (e : @oexpr R) (x : list R),
+  let P := PR af ad adm arn in
+  wt P e = true -> length x = sdim (dom P e) -> deriv_ok P e x = true -> regular af ad adm arn e x ->
+  forall eps, 0 < eps -> exists delta, 0 < delta /\
+    forall h, length h = sdim (dom P e) -> supn h < delta ->
+      supn (vsub (vsub (eval P e (vadd x h)) (eval P e x)) (eval P (derivative P e x) h)) <= eps * supn h.
+Proof. exact deriv_frechet_norm. Qed.
+Print Assumptions derivative_is_frechet_in_sup_norm.
+
+Theorem derivative_is_frechet_in_euclidean_norm :
+  forall (af : nat -> list R -> list R) (ad : nat -> list R -> list R -> list R) (adm arn : nat -> space),
+  (forall k x, length x = sdim (adm k) ->
+     hdiff (sdim (adm k)) (sdim (arn k)) (af k) x (ad k x) /\
+     blin (sdim (adm k)) (sdim (arn k)) (ad k x)) ->
+  (forall k x, length x = sdim (adm k) ->
+     exists L, fdiff (sdim (adm k)) (sdim (arn k)) (af k) x L /\ blin (sdim (adm k)) (sdim (arn k)) L) ->
+  forall (e : @oexpr R) (x : list R),
+  let P := PR af ad adm arn in
+  wt P e = true -> length x = sdim (dom P e) -> deriv_ok P e x = true -> regular af ad adm arn e x ->
+  forall eps, 0 < eps -> exists delta, 0 < delta /\
+    forall h, length h = sdim (dom P e) -> norm2 h < delta ->
+      norm2 (vsub (vsub (eval P e (vadd x h)) (eval P e x)) (eval P (derivative P e x) h)) <= eps * norm2 h.
+Proof. exact deriv_frechet_norm2. Qed.
+Print Assumptions derivative_is_frechet_in_euclidean_norm.
+
+(* the pieces, for arbitrary maps on R^n: the chain rule for Frechet derivatives, and
+   a Frechet derivative is the Hadamard derivative (so T1 and the literal statement
+   speak of the same linear map) *)
+Theorem frechet_chain_rule :
+  forall n k m (F G : list R -> list R) x (L1 L2 : list R -> list R),
+  fdiff n k G x L2 -> blin n k L2 -> fdiff k m F (G x) L1 -> blin k m L1 ->
+  fdiff n m (fun y => F (G y)) x (fun d => L1 (L2 d)).
+Proof. exact fdiff_comp. Qed.
+Print Assumptions frechet_chain_rule.
+
+Theorem frechet_derivative_is_hadamard_derivative :
+  forall n m (F : list R -> list R) x (L Lh : list R -> list R),
+  fdiff n m F x L -> blin n m L -> hdiff n m F x Lh -> forall d, length d = n -> L d = Lh d.
+Proof. exact fdiff_hdiff_agree. Qed.
+Print Assumptions frechet_derivative_is_hadamard_derivative.
+
+Theorem linear_maps_are_norm_bounded :
+  forall n m (L : list R -> list R), blin n m L ->
+  exists M, 0 <= M /\ forall h, length h = n -> supn (L h) <= M * supn h.
+Proof. exact blin_bnd. Qed.
+Print Assumptions linear_maps_are_norm_bounded.
+
 (* T1. Every entry of the derivative table REGENERATED from
    ufunc_ops.derivative_factory is the derivative of its ufunc (sin |-> cos,
    tan |-> 1 + tan^2, sqrt |-> 0.5/sqrt, reciprocal |-> -(1/x)^2, ...) on the
@@ -183,6 +250,87 @@ Theorem ufunc_linear_flag_correct :
   forall f : ufn, ufunc_linear f = true -> exists c : R, forall a : R, usem (PR af ad adm arn) f a = c * a.
 Proof. exact ufunc_linear_scale. Qed.
 Print Assumptions ufunc_linear_flag_correct.
+
+(* TIE BY REGENERATION.  Gen/Derivatives.v is re-emitted on every run from the `derivative`
+   methods and `linear=` flags of the source (translate/derivatives.py, fail-closed):
+   [deriv_rule], [linear_flag] for the nine expression classes of operator.py,
+   [block_rule] for Broadcast/Reduction/Diagonal/ProductSpaceOperator, [leaf_rule] for
+   PowerOperator, NormOperator, DistOperator, ConstantOperator, RealPart, ImagPart and the
+   base class.  C06/Interp.v gives the rule syntax its meaning.  The theorems below say that
+   the hand-written model about which T1 is proved IS that interpretation -- for every
+   carrier, every operator, every point.  A source change (another evaluation point, a
+   dropped factor, a swapped product-rule operand, a changed shortcut or flag) changes the
+   generated rule and breaks these proofs. *)
+Theorem model_derivative_is_regenerated_rule :
+  forall (T : Type) (N : Num T) (P : prims T) (e : @oexpr T) (x : list T) (c : oclass),
+  class_of e = Some c ->
+  derivative P e x = interp P (derivative P) e x (deriv_rule c).
+Proof. exact (@derivative_is_source_rule). Qed.
+Print Assumptions model_derivative_is_regenerated_rule.
+
+Theorem model_linear_flag_is_regenerated :
+  forall (T : Type) (N : Num T) (e : @oexpr T) (c : oclass),
+  class_of e = Some c -> is_lin e = ilin e (linear_flag c).
+Proof. exact (@is_lin_is_source_flag). Qed.
+Print Assumptions model_linear_flag_is_regenerated.
+
+Theorem model_block_derivative_is_regenerated_rule :
+  forall (T : Type) (N : Num T) (P : prims T) (e : @oexpr T) (x : list T) (c : bclass),
+  bclass_of e = Some c ->
+  derivative P e x = binterp P (derivative P) e x (block_rule c).
+Proof. exact (@block_derivative_is_source_rule). Qed.
+Print Assumptions model_block_derivative_is_regenerated_rule.
+
+Theorem model_leaf_derivative_is_regenerated_rule :
+  forall (T : Type) (N : Num T) (P : prims T) (l : @leaf T) (x : list T) (c : lclass),
+  lclass_of l = Some c ->
+  lderiv P l x = linterp P l x (leaf_rule c) /\ lderiv_ok P l x = linterp_ok P l x (leaf_rule c).
+Proof. exact (@leaf_derivative_is_source_rule). Qed.
+Print Assumptions model_leaf_derivative_is_regenerated_rule.
+
+(* The same for the functionals: Gen/Gradients.v is re-emitted from the `gradient` properties of
+   FunctionalLeftScalarMult, FunctionalRightScalarMult, FunctionalComp, FunctionalRightVectorMult,
+   FunctionalSum (hence FunctionalScalarSum), FunctionalTranslation, FunctionalQuadraticPerturb,
+   FunctionalProduct, FunctionalQuotient (translate/gradients.py also insists that
+   Functional.derivative is `gradient(point).T`); the model's [fgrad] IS the interpretation
+   (C06/FInterp.v) of these rules. *)
+Theorem model_gradient_is_regenerated_rule :
+  forall (T : Type) (N : Num T) (rt : T -> T) (mav : bool) (w : list T) (f : @fexpr T) (x : list T) (c : fclass),
+  fclass_of f = Some c ->
+  fgrad rt mav w f x = gval rt mav (fgrad rt mav) w f (grad_rule c) x.
+Proof. exact (@fgrad_is_source_rule). Qed.
+Print Assumptions model_gradient_is_regenerated_rule.
+
+(* TRANSFER.  The correspondence shards execute the model at Q (C06/Corr.v, [primsQ]); the
+   theorems are about the model at R.  On the polynomial part of the model ([tpoly]: all 13
+   classes; leaves Scaling, Multiply, Matrix, InnerProduct (any weights), Zero, Constant,
+   Power with exponent >= 1, ufunc square / negative, the user-defined cubic leaf and its
+   derivative object, PointwiseInner, RealPart, ImagPart, ComplexModulusSquared and its
+   derivative object -- i.e. no square root, no transcendental function, no division) the
+   run at Q IS the rational restriction of the object at R: Q2R commutes with evaluation and
+   with the construction of the derivative object ([omap] = the same operator with every
+   constant mapped by Q2R), and the flags / spaces agree. *)
+Theorem eval_Q_is_restriction_of_eval_R :
+  forall (e : @oexpr Q), tpoly e = true ->
+  forall x : list Q,
+  map Q2R (eval primsQ e x) = eval (PR ex_af ex_ad ex_dm ex_dm) (omap e) (map Q2R x).
+Proof. exact eval_transfer. Qed.
+Print Assumptions eval_Q_is_restriction_of_eval_R.
+
+Theorem derivative_Q_is_restriction_of_derivative_R :
+  forall (e : @oexpr Q), tpoly e = true ->
+  forall x : list Q,
+  omap (derivative primsQ e x) = derivative (PR ex_af ex_ad ex_dm ex_dm) (omap e) (map Q2R x).
+Proof. exact derivative_transfer. Qed.
+Print Assumptions derivative_Q_is_restriction_of_derivative_R.
+
+Theorem flags_and_spaces_transfer :
+  forall (e : @oexpr Q),
+  is_lin (omap e) = is_lin e /\
+  dom (PR ex_af ex_ad ex_dm ex_dm) (omap e) = dom primsQ e /\
+  ran (PR ex_af ex_ad ex_dm ex_dm) (omap e) = ran primsQ e.
+Proof. exact (fun e => conj (is_lin_tr e) (conj (dom_tr e) (ran_tr e))). Qed.
+Print Assumptions flags_and_spaces_transfer.
 
 (* T1 for functionals (odl/solvers/functional/functional.py, model C06/FModel.v):
    Functional.derivative(x) = InnerProductOperator(gradient(x)).  For EVERY tree of
@@ -217,6 +365,17 @@ Theorem functional_derivative_is_frechet :
 Proof. exact functional_derivative_sound. Qed.
 Print Assumptions functional_derivative_is_frechet.
 
+(* ... and literally, little-o in the norm:  | f(x+h) - f(x) - <h, gradient(x)>_w | <= eps ||h||
+   for ||h|| < delta  (every tree of the functional arithmetic, both values of mav) *)
+Theorem functional_derivative_is_frechet_in_norm :
+  forall (mav : bool) (f : @fexpr R) (w x : list R),
+  fwt f = true -> fok mav w f = true -> length w = fdim f -> length x = fdim f -> fregular w f x ->
+  forall eps, 0 < eps -> exists delta, 0 < delta /\
+    forall h, length h = fdim f -> supn h < delta ->
+      Rabs (feval sqrt w f (vadd x h) - feval sqrt w f x - wdot w h (fgrad sqrt mav w f x)) <= eps * supn h.
+Proof. exact functional_frechet_norm. Qed.
+Print Assumptions functional_derivative_is_frechet_in_norm.
+
 (* The unrestricted statement (drop [fok w f]) is FALSE of the faithful model -- the recorded
    finding FunctionalComp-MatrixOperator-weighted-space:
      forall f w x, fwt f = true -> length w = fdim f -> length x = fdim f -> fregular w f x ->
@@ -244,6 +403,11 @@ Example user_leaf_premise_holds :
   hdiff (sdim (ex_dm k)) (sdim (ex_dm k)) (ex_af k) x (ex_ad k x) /\
   blin (sdim (ex_dm k)) (sdim (ex_dm k)) (ex_ad k x).
 Proof. exact ex_Habs. Qed.
+
+Example user_leaf_frechet_premise_holds :
+  forall k x, length x = sdim (ex_dm k) ->
+  exists L, fdiff (sdim (ex_dm k)) (sdim (ex_dm k)) (ex_af k) x L /\ blin (sdim (ex_dm k)) (sdim (ex_dm k)) L.
+Proof. exact ex_HabsF. Qed.
 
 (* ---- and the premises on (e, x) are satisfiable by a tree using every class ---- *)
 Example premises_hold :
